@@ -58,7 +58,7 @@ func QToProto(q Q) *webserverv1.Q {
 }
 
 func QFromProto(p *webserverv1.Q) (Q, error) {
-	switch v := p.Query.(type) {
+	switch v := p.GetQuery().(type) {
 	case *webserverv1.Q_RawConfig:
 		return RawConfigFromProto(v.RawConfig), nil
 	case *webserverv1.Q_Regexp:
@@ -98,7 +98,9 @@ func QFromProto(p *webserverv1.Q) (Q, error) {
 	case *webserverv1.Q_Meta:
 		return MetaFromProto(v.Meta)
 	default:
-		panic(fmt.Sprintf("unknown query node %T", p.Query))
+		// An unset message or oneof (e.g. a Not without a child) arrives here. Inputs
+		// come off the wire, so report them instead of crashing the server.
+		return nil, fmt.Errorf("unknown query node %T", p.GetQuery())
 	}
 }
 
